@@ -121,6 +121,16 @@ pub struct Features {
 }
 
 fn decode_string(data: &[u8], off: usize) -> Result<(usize, &str), String> {
+    // the encoding of a string is the crate's business (hook: its own decoder, the one the VM
+    // uses): what is checked is that a complete UTF-8 string can be read at the offset
+    if off > data.len() {
+        return Err(format!("string offset {} is beyond the data section ({} bytes)", off, data.len()));
+    }
+    return match cao_lang::verif::decode_str(&data[off..]) {
+        Some((_, s)) => Ok((s.len(), s)),
+        None => Err(format!("no complete UTF-8 string can be decoded at offset {} (data is {} bytes)", off, data.len())),
+    };
+    #[allow(unreachable_code)]
     if off + 4 > data.len() {
         return Err(format!("string offset {} leaves no room for the length prefix (data is {} bytes)", off, data.len()));
     }
